@@ -307,8 +307,8 @@ func C02(run *report.Run) {
 				slots = 3
 			}
 			e := &explore.Explorer{Cfg: &fam, Ops: c02Ops(&fam, slots, pl.allVals), Mon: &c02Mon{}, Reduced: true, MaxDepth: pl.L, Workers: 1}
-			if !world.HookAvailable && pl.L > 2 {
-				e.MaxDepth = 2
+			if !world.HookAvailable && pl.L > 1 {
+				e.MaxDepth = 1
 			}
 			e.Run()
 			atomic.AddInt64(&families, 1)
@@ -382,7 +382,7 @@ func closureStatesBounded(run *report.Run, check string, cfg *world.Config) [][]
 	maxStates := int64(40000)
 	e := &explore.Explorer{Cfg: &c2, Ops: filtered, Mon: explore.NopMonitor{}, Reduced: true, KeepHists: true, MaxStates: maxStates}
 	if !world.HookAvailable {
-		e.MaxDepth = 3
+		e.MaxDepth = 2
 	}
 	e.Run()
 	if e.HarnessErr != nil {
